@@ -77,7 +77,7 @@ pub mod name_labels {
             ensures r == self.offsets().len(),
         { unimplemented!() }
 
-        /// Target of rewrite R5/R5b: `Index<usize> for Name` (panics when `i >= n_labels`).
+        /// Target of rewrites R5 / RC2: `Index<usize> for Name` (panics when `i >= n_labels`).
         #[verifier::external_body]
         pub fn label(&self, i: usize) -> (r: &Label)
             requires i < self.offsets().len(),
